@@ -9,6 +9,9 @@ CONSTANTS
   SaveAsSet = {"none", "dir"}
   Modes = {"datagone", "shape"}
   MayFail = TRUE
+  OutcomeSet = {"crash"}
+  BackedSet = {FALSE}
+  RecordMode = "component"
   PoolSet = {FALSE, TRUE}
   AssembleMode = "index"
   MaxFaults = 1
